@@ -12,7 +12,8 @@ from ..val import veq, clone, drop_nulls
 from .c02 import Stream
 
 ID = 'C03'
-SIZES = {'quick': 1000, 'thorough': 25000}
+SIZES = {'quick': 1000, 'thorough': 100000}
+REQUIRED_EVENTS = ['chains_agreed', 'load_events_checked', 'missing_rejected', 'metamorphic_rename']
 RULE = ('directory layouts of 1-6 layer files (chain depth <= 4; extensions json jsonl yaml yml toml; one file per layer name) built by scenario '
         'generators: filename chains, $parent as string / list / * wildcard (with decoys that the wildcard must not match) / false / null placed '
         'in the first or a later document, symlinked layers (same and other directory), 1-3 command-line inputs, -P, a deleted middle layer '
